@@ -39,6 +39,7 @@ MSG_OPS = ("ver", "sec", "init", "enc", "req", "scale", "pf", "key", "junk", "pa
            "closepeer", "resetpeer")
 # "ultra" is left out: minilzo does unaligned 32-bit loads by design, which the UBSan build of the
 # code under test turns into an abort (not a life-cycle matter)
+REFUSED = (49, 50, 64, 65, 100, 200, 255)     # 48/k == 0 (and 64/k == 0 from 65 on)
 ENCS = ("raw", "rre", "corre", "hextile", "zlib", "tight", "zrle")
 
 
@@ -103,7 +104,7 @@ def oracle(script, impl, stderr="", faulted=()):
     if len(impl) != len(ops) + 1:
         return [("observation count %d != ops %d + end" % (len(impl), len(ops)), None)]
     hooked, seen, kicks, cleaned, did_shutdown, ftopen = set(), set(), {}, False, False, {}
-    prev = None
+    prev, prev_nscr = None, 0
     for op, raw in zip(ops, impl):
         t = op.split()
         ln = Line(raw)
@@ -150,7 +151,7 @@ def oracle(script, impl, stderr="", faulted=()):
         if ln.stray is not None and ln.stray > nft:
             bad.append(("%d descriptor(s) owned by nobody (op %r)" % (ln.stray - nft, op), None))
         # progress
-        if t[0] in MSG_OPS or t[0] == "pump":
+        if t[0] in MSG_OPS or t[0] in ("pump", "draw"):
             for c, s in ln.conns.items():
                 if s["L"] and s["sock"] == "closed":
                     bad.append(("%s closed but not reaped by the event loop (op %r)" % (c, op), c))
@@ -160,13 +161,18 @@ def oracle(script, impl, stderr="", faulted=()):
         if prev is not None and (t[0] in MSG_OPS or t[0] in ("conn", "appclose", "start", "refuse")) and len(t) > 1:
             for c, s in ln.conns.items():
                 if c == t[1] or c not in prev: continue
-                if s["tok"] != prev[c]["tok"]:
+                # a scaled screen allocated for somebody else is linked right behind the main screen:
+                # the chain positions (s<k>, k >= 1) of the existing scaled screens move up by one
+                shift = (len(ln.refs) - prev_nscr) if (ln.refs is not None and prev_nscr) else 0
+                ptok = re.sub(r":s(\d+)z", lambda m: ":s%dz" % (int(m.group(1)) + (shift if int(m.group(1)) >= 1 else 0)), prev[c]["tok"])
+                if s["tok"] != ptok:
                     legit = (t[0] == "init" and len(t) > 2 and t[2] == "0") or c in kicks.values()
                     # a faulted/condemned connection may finish dying during somebody else's op
                     dying = prev[c]["sock"] == "closed" or c in faulted
                     if not legit and not dying:
                         bad.append(("op %r changed the record of %s: %s -> %s" % (op, c, prev[c]["tok"], s["tok"]), c))
         prev = ln.conns
+        prev_nscr = len(ln.refs) if ln.refs is not None else 0
         if bad and len(bad) > 12:
             break
     end = impl[-1]
@@ -360,7 +366,11 @@ class Gen:
         x = r.random()
         if x < 0.25: self.emit("enc c%d %s" % (i, r.choice(ENCS)))
         elif x < 0.55: self.emit("req c%d" % i)
-        elif x < 0.70: self.emit("scale c%d %d" % (i, r.choice([1, 2, 2, 3, 4, 0 if r.random() < 0.2 else 2])))
+        elif x < 0.70:
+            # satisfiable factors (shared between clients on purpose), factor 0 (protocol error) and
+            # factors that reduce a dimension of the 64x48 screen to 0 ("leaving things alone")
+            k = r.choice(REFUSED) if r.random() < 0.22 else r.choice([1, 2, 2, 3, 4, 0 if r.random() < 0.2 else 2])
+            self.emit("scale c%d %d" % (i, k))
         elif x < 0.78: self.emit("pf c%d" % i)
         elif x < 0.88: self.emit("key c%d" % i)
         elif x < 0.92: self.emit("junk c%d" % i); c["peer"] = c["peer"]
@@ -415,6 +425,43 @@ class Gen:
         return "\n".join(self.lines) + "\n"
 
 
+def scale_share_script(rng):
+    """clients sharing a scaled view; one of them changes factor, asks for unsatisfiable factors and
+    leaves; afterwards the application paints and the remaining clients fetch the picture.
+    -> (script, twin): the twin lacks the unsatisfiable requests (which must not matter to anybody else)"""
+    K = rng.choice([2, 2, 3, 4])
+    L, T = [], []
+    def both(x): L.append(x); T.append(x)
+    for c in (0, 1):
+        for x in ("conn c%d hook=accept" % c, "ver c%d" % c, "sec c%d" % c, "init c%d 1" % c,
+                  "enc c%d %s" % (c, rng.choice(["raw", "raw", "hextile", "zlib"]))):
+            both(x)
+    both("scale c0 %d" % K); both("req c0")
+    both("scale c1 %d" % (K if rng.random() < 0.8 else rng.choice([1, 2, 3, 4]))); both("req c1")
+    third = rng.random() < 0.4
+    if third:
+        for x in ("conn c2 hook=accept", "ver c2", "sec c2", "init c2 1", "scale c2 %d" % rng.choice([K, K, 1, 3]), "req c2"):
+            both(x)
+    nref = 0
+    for _ in range(rng.randint(1, 6)):
+        x = rng.random()
+        if x < 0.45 or nref == 0:
+            L.append("scale c1 %d" % rng.choice(REFUSED)); nref += 1
+        elif x < 0.65: both("scale c1 %d" % rng.choice([1, 2, 3, 4]))
+        elif x < 0.80: both("scale c1 %d" % K)
+        else: both("req c1")
+    leave = rng.choice(["closepeer c1", "closepeer c1", "resetpeer c1", "junk c1", "appclose c1|pump", "kbdclose c1|key c1", "stay"])
+    if leave != "stay":
+        for x in leave.split("|"): both(x)
+    for k in range(rng.randint(1, 2)):
+        both("draw %d" % rng.randint(1, 9)); both("req c0")
+        if third: both("req c2")
+    both("out c0")
+    if third: both("out c2")
+    for x in ("shutdown", "cleanup", "end"): both(x)
+    return "\n".join(L) + "\n", "\n".join(T) + "\n"
+
+
 def scenario_scripts(variant):
     """hand-written bases for the fault enumeration: a witness c0 plus clients walking through every
     stage of the life cycle (handshake, resources, scaling, hold/start, refusal, replacement,
@@ -437,6 +484,9 @@ def scenario_scripts(variant):
     S["partial"] = W + ["conn c1 hook=accept", "ver c1", "sec c1", "init c1 1", "scale c1 2", "partial c1",
                        "conn c2 hook=accept", "ver c2", "resetpeer c2"] + E
     S["ws"] = W + ["conn c1 hook=accept ws=1", "ver c1", "sec c1", "init c1 1", "enc c1 zlib", "req c1", "closepeer c1"] + E
+    S["scale-share"] = W[:4] + ["enc c0 raw", "scale c0 2", "req c0", "conn c1 hook=accept", "ver c1", "sec c1", "init c1 1",
+                            "scale c1 2", "req c1", "scale c1 200", "scale c1 3", "scale c1 64", "scale c1 2", "scale c1 100",
+                            "closepeer c1", "draw 3"] + E
     S["cleanup-only"] = W + ["conn c1 hook=accept", "ver c1", "sec c1", "init c1 1", "enc c1 tight", "scale c1 2", "req c1",
                             "req c0", "out c0", "out c1", "cleanup", "end"]
     return {k: "\n".join(v) + "\n" for k, v in S.items()}
@@ -537,6 +587,22 @@ def run(ctx):
         for sc, r in zip(scripts, common.pmap(lambda s: check_script(ctx, h, d, s, variant, "life-cycle"), scripts)):
             absorb(sc, r)
             if len(samples) < 3: samples.append({"script": sc.splitlines(), "impl": r["impl"]})
+        # shared scaled views: refused factors, changes of factor, leaving; differential twin runs
+        npair = 10 if ctx.tier == "quick" else 150
+        pairs = [scale_share_script(ctx.rng) for _ in range(npair)]
+        def pair(pt):
+            a = check_script(ctx, h, d, pt[0], variant, "shared scaled view")
+            b = check_script(ctx, h, d, pt[1], variant, "shared scaled view (twin)")
+            oa = [l for l in a["impl"] if l.startswith("out ")]
+            ob = [l for l in b["impl"] if l.startswith("out ")]
+            if oa != ob and not any(f["kind"] == "crash" for f in a["failures"] + b["failures"]):
+                a["failures"].append({"kind": "oracle", "what": "C12 isolation: unsatisfiable SetScale requests of one client changed another client's stream",
+                                      "detail": "with the requests %r, without %r" % (oa, ob), "script": pt[0].splitlines(), "impl": a["impl"][-6:]})
+            return a, b
+        for pt, (a, b) in zip(pairs, common.pmap(pair, pairs)):
+            absorb(pt[0], a); absorb(pt[1], b)
+            dist["scale_share_pairs"] = dist.get("scale_share_pairs", 0) + 1
+        if pairs and len(samples) < 4: samples.append({"script": pairs[0][0].splitlines()})
         # fault enumeration
         bases = list(scenario_scripts(variant).items())
         nrand = 3 if ctx.tier == "quick" else 30
